@@ -42,6 +42,39 @@ def apply_edits(root: str, edits) -> str | None:
     return None
 
 
+def apply_transform(root: str, spec) -> str | None:
+    """Whole-file behaviour-preserving rewrites.
+    ('reformat',)                 every package file re-emitted by ast.unparse (comments, layout, quote style,
+                                  line numbers all change)
+    ('rename', file, {old: new})  word-boundary rename of local identifiers in one file"""
+    import ast
+    import re
+    kind = spec[0]
+    pkg = os.path.join(root, 'tapescript')
+    if kind == 'reformat':
+        for fn in sorted(os.listdir(pkg)):
+            if fn.endswith('.py'):
+                p = os.path.join(pkg, fn)
+                src = open(p, encoding='utf-8').read()
+                out = ast.unparse(ast.parse(src)) + '\n'
+                with open(p, 'w', encoding='utf-8') as f:
+                    f.write(out)
+        return None
+    if kind == 'rename':
+        p = os.path.join(root, spec[1])
+        src = open(p, encoding='utf-8').read()
+        for old, new in spec[2].items():
+            if not re.search(r'\b' + re.escape(old) + r'\b', src):
+                return f'identifier {old} not present in {spec[1]}'
+            if re.search(r'\b' + re.escape(new) + r'\b', src):
+                return f'identifier {new} already present in {spec[1]}'
+            src = re.sub(r'\b' + re.escape(old) + r'\b', new, src)
+        with open(p, 'w', encoding='utf-8') as f:
+            f.write(src)
+        return None
+    return f'unknown transform {kind}'
+
+
 def run_on_root(prop: str, root: str):
     """Run the quick rules of `prop` against the tree at `root` in-process.
     Returns (exit code, [(rule, construct, ok, why)], errors)."""
@@ -81,6 +114,10 @@ def _one(args):
         stale = apply_edits(tmp, variant['edits'])
         if stale:
             return variant['id'], 'stale', stale
+        if variant.get('transform'):
+            why = apply_transform(tmp, variant['transform'])
+            if why:
+                return variant['id'], 'stale', why
         if variant.get('patch'):
             import subprocess
             r = subprocess.run(['patch', '-p1', '-s', '--no-backup-if-mismatch', '-d', tmp, '-i', variant['patch']],
